@@ -94,6 +94,11 @@ def scenario(tier):
             b.require(ok, "next-command-aborts", "%s: %s afterwards exits %s (%s)" % (tag, cmd, r2.exit, r2.exc))
             if cmd == "verify" and prior > 0:
                 b.require(r2.exit in (0, 21), "next-verify-result", "%s: verify exits %s (%s)" % (tag, r2.exit, r2.exc))
+        # ... and so do the commands after that create (whatever the interrupted run left behind must not poison later generations)
+        for cmd in ("verify", "info"):
+            r3 = b.run(cmd, root="R")
+            ok = r3.exit in (0, 10, 11, 21, 30) and (r3.exc is None or r3.exit >= 10)
+            b.require(ok, "next-command-aborts", "%s: %s after a further create exits %s (%s)" % (tag, cmd, r3.exit, r3.exc))
     return fn
 
 
